@@ -13,7 +13,9 @@ CASE_TYPE = "C34_case"
 HARNESS = "c34"
 KNOWN = {}
 RULE = ("one case = one history (<= 40 operations: send/notify, clone, drop sender, poll with one of 8 counting "
-        "wakers, drop receiver) driven through ONE real channel on one thread; every short history over a small "
+        "wakers, drop receiver) driven through ONE real channel on one thread; in part of the cases a poll runs "
+        "concurrently with a sender-side operation of a second thread that is released from inside the poll "
+        "(hook in Waker::clone) and the monitor must accept one of the two orders; every short history over a small "
         "alphabet is enumerated, longer ones are drawn from one PRNG with ownership-valid handles (plus a few ops "
         "on dead handles); distinct = distinct input line; non-trivial = the history delivers at least one value "
         "and issues at least one wake")
@@ -21,7 +23,9 @@ TRUSTED = ["theories/Sched/ChannelsModel.v is a hand transcription of the critic
            "channels/oneshot.rs, mpsc.rs, notification.rs",
            "atomicity of critical_section::with (the std implementation: a global re-entrant mutex) and the "
            "memory ordering it provides are assumed, not proved",
-           "Rust ownership (a moved/dropped handle is never used again) is modelled by a ghost handle table"]
+           "Rust ownership (a moved/dropped handle is never used again) is modelled by a ghost handle table",
+           "granularity check: the second thread is judged 'blocked on the critical-section lock' from "
+           "/proc/self/task/<tid>/stat (state S after it announced its operation)"]
 ASSUMPTIONS = ["every step of a history is one critical_section::with body executed atomically; under that "
                "assumption a list of steps IS an interleaving of the threads owning the handles",
                "mpsc and notification: no overflow of sender_count is claimed for histories shorter than "
@@ -33,6 +37,8 @@ KINDS = {"o": "KOneshot", "m": "KMpsc", "n": "KNotif"}
 # ------------------------------------------------------------------ generator
 
 def op_tok(o):
+    if o[0] == "P":
+        return "P%d/%s" % (o[1], op_tok(o[2]))
     if o[0] == "s":
         return "s%d:%d" % (o[1], o[2])
     if o[0] == "r":
@@ -203,10 +209,45 @@ def exhaustive(kind, alphabet, maxlen):
     return out
 
 
+def with_races(r, case, prob):
+    """turn some adjacent (poll, sender-side op) pairs into two-thread pairs"""
+    kind, ops = case
+    out = []
+    i = 0
+    while i < len(ops):
+        if (i + 1 < len(ops) and ops[i][0] == "p" and ops[i + 1][0] in ("s", "c", "d")
+                and r.random() < prob):
+            out.append(("P", ops[i][1], ops[i + 1]))
+            i += 2
+        else:
+            out.append(ops[i])
+            i += 1
+    return (kind, out)
+
+
+def race_family():
+    """systematic two-thread pairs: (state before) x (concurrent sender-side op) x drain"""
+    cases = []
+    for pre in ([], [("p", 0)], [("p", 0), ("p", 1)], [("s", 0, 1)], [("d", 0)], [("r",)]):
+        for act in (("s", 0, 5), ("d", 0)):
+            cases.append(("o", pre + [("P", 1, act), ("p", 2), ("p", 2)]))
+    pres = ([], [("p", 0)], [("c", 0)], [("c", 0), ("p", 0)], [("s", 0, 1), ("p", 0)], [("s", 0, 1)],
+            [("c", 0), ("d", 0)], [("c", 0), ("d", 1), ("p", 3)])
+    for kind in ("m", "n"):
+        for pre in pres:
+            for act in (("s", 0, 5), ("s", 1, 6), ("d", 0), ("d", 1), ("c", 0)):
+                cases.append((kind, pre + [("P", 1, act), ("p", 2), ("p", 2), ("p", 2)]))
+        # two pairs in one history: last two handles dropped, each while the receiver polls
+        cases.append((kind, [("c", 0), ("P", 3, ("d", 0)), ("P", 4, ("d", 1)), ("p", 2)]))
+        cases.append((kind, [("c", 0), ("P", 3, ("s", 1, 7)), ("p", 0), ("P", 4, ("s", 0, 8)), ("p", 2), ("p", 2)]))
+    return cases
+
+
 def gen(r, tier):
     n = {"quick": 4500, "search": 20000, "thorough": 100000}[tier]
     cases = []
     deep = tier != "quick"
+    cases += race_family()
     # bounded-exhaustive part: every history over a small alphabet
     cases += exhaustive("o", [("s", 0), ("d", 0), ("p", 0), ("p", 1), ("r",)], 5 if deep else 4)
     alpha = [("s", 0), ("s", 1), ("c", 0), ("d", 0), ("d", 1), ("p", 0), ("p", 1), ("r",)]
@@ -215,16 +256,26 @@ def gen(r, tier):
     while len(cases) < n:
         kind = r.choice(["o", "m", "m", "n", "n"])
         if r.random() < 0.3:
-            cases.append(scenario(r, kind))
-            continue
-        ln = r.randint(2, 8) if kind == "o" else r.choice([r.randint(3, 12), r.randint(10, 40)])
-        cases.append(rand_history(r, kind, ln))
+            c = scenario(r, kind)
+        else:
+            ln = r.randint(2, 8) if kind == "o" else r.choice([r.randint(3, 12), r.randint(10, 40)])
+            c = rand_history(r, kind, ln)
+        if r.random() < 0.15:
+            c = with_races(r, c, 0.5)
+        cases.append(c)
     return cases
 
 
 def corpus():
     # minimised regression cases
     return [
+        # seeded change C34b (poll split into check | register): the send / the drop lands inside the poll
+        ("o", [("P", 1, ("s", 0, 5)), ("p", 2), ("p", 2)]),
+        ("o", [("P", 1, ("d", 0)), ("p", 2)]),
+        ("m", [("P", 1, ("s", 0, 5)), ("p", 2), ("p", 2)]),
+        ("m", [("P", 1, ("d", 0)), ("p", 2)]),
+        ("n", [("P", 1, ("s", 0, 0)), ("p", 2), ("p", 2)]),
+        ("n", [("P", 1, ("d", 0)), ("p", 2)]),
         ("m", [("d", 0), ("p", 0)]),             # C34-mpsc-never-closes (fixed 112abf8): was `u p`, now `u c`
         ("m", [("p", 0), ("d", 0), ("p", 1)]),   # same finding: the last drop did not wake: was `p u p`
         ("m", [("c", 0), ("s", 1, 7), ("d", 0), ("p", 0), ("d", 1), ("p", 0), ("p", 0)]),
@@ -246,15 +297,17 @@ def parse_line(line):
     if not p or p[0] not in KINDS:
         return None
     ops = []
-    for t in p[1:]:
+    def one(t):
+        if t[0] == "P":
+            w, a = t[1:].split("/")
+            return ("P", int(w), one(a))
         if t[0] == "s":
             h, v = t[1:].split(":")
-            ops.append(("s", int(h), int(v)))
-        elif t[0] == "r":
-            ops.append(("r",))
-        else:
-            ops.append((t[0], int(t[1:])))
-    return (p[0], ops)
+            return ("s", int(h), int(v))
+        if t[0] == "r":
+            return ("r",)
+        return (t[0], int(t[1:]))
+    return (p[0], [one(t) for t in p[1:]])
 
 
 # ------------------------------------------------------------- Coq printing
@@ -286,20 +339,37 @@ def out_term(tok):
     return "mkout %s [%s]" % (r, "; ".join("%d%%nat" % int(w) for w in wakes))
 
 
+def flatten(ops):
+    """harness ops -> (model-level ops, positions of the concurrent pairs)"""
+    flat, races = [], []
+    for o in ops:
+        if o[0] == "P":
+            races.append(len(flat))
+            flat.append(("p", o[1]))
+            flat.append(o[2])
+        else:
+            flat.append(o)
+    return flat, races
+
+
 def case_term(c, out):
     kind, ops = c
     if out.startswith("ABORT") or out.startswith("HANG"):
         return None
+    ops, races = flatten(ops)
     toks = out.split()
+    if "T" in toks:
+        return None      # the concurrent pair could not be decided (harness wait limit)
     try:
         if out.startswith("PANIC") or len(toks) != len(ops):
             raise ValueError(out)
-        outs = [out_term(t) for t in toks]
+        # `~` (the concurrent op completed inside the poll) is information for the reader only
+        outs = [out_term(t.replace("~", "")) for t in toks]
     except ValueError:
         # a panic or garbage: representable, rejected by model and oracle
         outs = ["mkout RPanic []"] * len(ops)
     evs = "; ".join("(%s, %s)" % (op_term(o), r) for o, r in zip(ops, outs))
-    return "mkC34 %s [%s]" % (KINDS[kind], evs)
+    return "mkC34 %s [%s] [%s]" % (KINDS[kind], evs, "; ".join("%d%%nat" % i for i in races))
 
 
 def nontrivial(c, out):
@@ -312,6 +382,10 @@ def distribution(cases, outs):
     d = {}
     for c, o in zip(cases, outs):
         n = len(c[1])
+        nr = sum(1 for x in c[1] if x[0] == "P")
+        if nr:
+            d["two-thread-pairs"] = d.get("two-thread-pairs", 0) + nr
+            d["two-thread-pairs-inside-poll(~)"] = d.get("two-thread-pairs-inside-poll(~)", 0) + o.count("~")
         b = "len<=4" if n <= 4 else ("len<=12" if n <= 12 else "len<=40")
         k = "%s/%s" % (KINDS[c[0]], b)
         d[k] = d.get(k, 0) + 1
@@ -354,7 +428,12 @@ MANIFEST = {
              "handles and never under/overflows. The model is tied to the code by driving the real channel types "
              "with counting wakers through thousands of histories (all short ones exhaustively) and comparing every "
              "return value and every wake inside Coq; the property monitor is applied to the implementation's own "
-             "outputs; a multi-thread stress run corroborates. (The mpsc disconnection clause was false before "
+             "outputs. The GRANULARITY of the critical sections is checked too: in several hundred cases a second "
+             "thread is released from inside the receiver's poll (hook in Waker::clone) and performs a send / drop / "
+             "clone; if poll is one critical section the lock serialises it after the poll, otherwise it lands "
+             "inside and the monitor must still accept one of the two orders (a closed Coq example shows that a poll "
+             "split into check | register loses the wake-up, so the atomicity hypothesis is necessary). A "
+             "multi-thread stress run corroborates. (The mpsc disconnection clause was false before "
              "/repo commit 112abf8: finding C34-mpsc-never-closes, fixed.)"),
     "note": ("Trusted: Coq kernel + vm_compute; hand model ChannelsModel.v (checked against the code on every run); "
              "atomicity and memory ordering of critical_section::with (std implementation) are assumed, not proved; "
